@@ -50,6 +50,7 @@ def run_cell(args):
             seed=seed,
             max_exec=cell.get("max_exec"),
             deadline=deadline,
+            known_keys=tuple(cell.get("known_keys", ())),
         )
         out = {
             "name": cell["name"],
@@ -272,6 +273,9 @@ def run_property(prop, tier, seed, jobs=None, only=None, budget=None, grid=None,
     jobs = jobs or min(16, os.cpu_count() or 1, max(1, len(cells)))
     order = list(range(len(cells)))
     order.sort(key=lambda i: -cells[i].get("weight", 1))
+    kkeys = [k["match_key"] for k in load_known() if k["property"] == prop]
+    for c in cells:
+        c["known_keys"] = kkeys
     soft = getattr(mod, "SOFT_S", {}).get(tier, 20 if tier == "quick" else 90)
     if jobs > 1:
         for c in cells:
